@@ -368,7 +368,10 @@ def placementSkip (time : Int) (p : PlacementS) (drop : Bool) : SimM (List SEven
     | none => pure ()
     return []
 
-/-- `__create_events_from_task_placement`. -/
+/-- `__create_events_from_task_placement`. For a SCHEDULED task with a cached future placement event the
+source mutates the cached event OBJECT; here the queue is edited (`editEvent`), and the caller
+(`handleSchedulerFinish`) applies the same edit to the events that are still pending in its local list
+(`cachedOf` / `editPending`): the object is in one of the two places. -/
 def placementEvents (time : Int) (p : PlacementS) : SimM (List SEvent) := do
   let t := p.task
   let x ← getTask t
